@@ -513,6 +513,8 @@ def oracle_prog(prog, obs):
         name = op[1] if k == "fn" else k
         exc = ob["exc"]
         r = ob["r"]
+        if exc is not None and exc.startswith("harness"):
+            continue
         # ---------------- no side effects, on return and on raise
         if not ob["err_same"]:
             bad(i, "effects/err-register/" + name, "numpy's floating-point error configuration was %s before the call and %s after (%s)"
@@ -520,14 +522,14 @@ def oracle_prog(prog, obs):
         if ob["arrchg"]:
             bad(i, "effects/argument-array/" + name, "caller array(s) %s changed by the call: now %s" % ([c[0] for c in ob["arrchg"]], [c[1] for c in ob["arrchg"]]))
         if ob["alias"]:
-            bad(i, "effects/alias/" + name, "box corners share memory with caller arrays / other boxes: %s" % ob["alias"][:4])
+            bad(i, "effects/alias", "after %s: box corners share memory with caller arrays / other boxes: %s" % (name, ob["alias"][:4]))
         allowed = {op[1]} if k in ("pad_s", "pad_v") and exc is None else set()
         for c in ob["boxchg"]:
             if c[0] not in allowed:
                 bad(i, "effects/other-box/" + name, "box %d changed by a call that is not documented to modify it" % c[0])
         if exc is not None and exc.startswith("other"):
             if not (k == "fn" and op[1] in ("cross", "det2", "det3") ):
-                bad(i, "raise/unexpected/" + name, "unexpected exception %s" % exc)
+                bad(i, "raise/unexpected/%s/%s" % (name, exc.split(":")[1].strip()), "unexpected exception %s" % exc)
             continue
         # ---------------- algebra
         try:
